@@ -322,6 +322,23 @@ func run(c *mon.Ctx) {
 		} else {
 			checkPMT(c, "ReadPMT", m2, &p, ws)
 		}
+		// ---- objects decoded earlier keep reporting their own table after other PMTs were decoded
+		{
+			q := ref.GenPMT(r, 1+r.Intn(4))
+			qp := append([]byte{0}, q.Section()...)
+			psi.NewPMT(qp)
+			qk, _ := ref.Packetise(pid, 0, qp, ref.RandChunks(r, 3), r.Bool())
+			var st2 bytes.Buffer
+			for _, k2 := range qk {
+				st2.Write(k2[:])
+			}
+			psi.ReadPMT(bytes.NewReader(st2.Bytes()), pid)
+			c.Count("earlier_objects_rechecked")
+			checkPMT(c, "NewPMT-object-after-later-decodes", m, &p, w("payload"))
+			if m2 != nil && err == nil {
+				checkPMT(c, "ReadPMT-object-after-later-decodes", m2, &p, ws)
+			}
+		}
 		// ---- class
 		dshape := 0
 		for _, s := range p.Streams {
